@@ -515,3 +515,94 @@ def default_origins(prog, fn, blocks=None):
                         out.append(v)
     return out
 
+
+_VIDX = {"None": 0, "Some": 1, "Ok": 0, "Err": 1, "Continue": 0, "Break": 1}
+
+
+def feasible_path_avoiding(fn, start, goal, avoid, limit=20000):
+    """Is there a path start -> goal that avoids the blocks in `avoid` and is consistent with what each path itself establishes
+    about Option/Result/ControlFlow-valued locals? Along a path we remember the variant last stored into a local (an aggregate
+    `Some(..)`/`None`/..., a copy or move of such a local, the result of Try::branch on one); a switch on the discriminant of a
+    local whose variant is known only follows the matching edge. (Correlates `return None` in an inlined helper with the caller's
+    `?` taking its early-return edge.) Returns a witness path or None."""
+    from .facts import callee_of
+    avoid = set(avoid)
+    seen = set()
+    steps = [0]
+
+    def step(b, facts, path):
+        steps[0] += 1
+        if steps[0] > limit:
+            return path + [b]        # give up conservatively: report as feasible
+        if b in avoid:
+            return None
+        key = (b, tuple(sorted(facts.items())))
+        if key in seen:
+            return None
+        seen.add(key)
+        if b == goal:
+            return path + [b]
+        facts = dict(facts)
+        for s_ in fn.stmts(b):
+            if s_["k"] != "assign" or s_["p"].get("pr"):
+                if s_["k"] == "assign" and s_["p"].get("pr"):
+                    facts.pop(s_["p"]["l"], None) if False else None
+                continue
+            l = s_["p"]["l"]
+            r = s_["r"]
+            if r["k"] == "agg" and r.get("variant") in _VIDX:
+                facts[l] = r["variant"]
+            elif r["k"] == "use" and r["a"].get("p") is not None and not r["a"]["p"].get("pr") and r["a"]["p"]["l"] in facts:
+                facts[l] = facts[r["a"]["p"]["l"]]
+            elif r["k"] == "use" and r["a"].get("k") == "const" and isinstance(r["a"].get("int"), int):
+                facts[l] = ("int", r["a"]["int"])          # a constant flag (`return true` in an inlined helper)
+            else:
+                facts.pop(l, None)
+        t = fn.term(b)
+        k = t["k"]
+        if k == "call":
+            d = t["dest"]
+            c = callee_of(t) or ""
+            if not d.get("pr"):
+                src = op_local(t["args"][0]) if t.get("args") else None
+                if c.endswith("Try>::branch") and src in facts and not isinstance(facts[src], tuple):
+                    facts[d["l"]] = "Continue" if facts[src] in ("Some", "Ok") else "Break"
+                elif c.endswith("::from_residual") and fn.local_ty(d["l"]).startswith("core::option::Option"):
+                    facts[d["l"]] = "None"          # `?` on an Option re-raises None
+                elif c.endswith("::from_residual") and fn.local_ty(d["l"]).startswith("core::result::Result"):
+                    facts[d["l"]] = "Err"
+                else:
+                    facts.pop(d["l"], None)
+            if t.get("t") is None:
+                return None
+            return step(t["t"], facts, path + [b])
+        if k == "switch":
+            sw = switch_on_discr_of_local(fn, b)
+            known = None
+            if sw and not [e for e in sw[0].get("pr", []) if e != "*"] and sw[0]["l"] in facts and not isinstance(facts[sw[0]["l"]], tuple):
+                known = _VIDX[facts[sw[0]["l"]]]
+            sl = op_local(t["a"])
+            if known is None and sl is not None and isinstance(facts.get(sl), tuple):
+                known = facts[sl][1]
+            succs = []
+            tg = {v: x for v, x in t["targets"]}
+            if known is not None:
+                succs = [tg.get(known, t["otherwise"])]
+            else:
+                succs = [x for v, x in t["targets"]] + [t["otherwise"]]
+            for x in dict.fromkeys(succs):
+                r_ = step(x, facts, path + [b])
+                if r_:
+                    return r_
+            return None
+        if k in ("goto", "drop", "assert"):
+            return step(t["t"], facts, path + [b])
+        return None
+    import sys
+    old = sys.getrecursionlimit()
+    sys.setrecursionlimit(max(old, 20000))
+    try:
+        return step(start, {}, [])
+    finally:
+        sys.setrecursionlimit(old)
+
